@@ -116,6 +116,9 @@ type MapKeyed struct {
 type MapInt map[int]string
 type StrMap map[string]int
 
+// a map type with transformed (struct) keys that is itself registered (morphism, tag in the tagged atlases)
+type KeyedMap map[KeyStruct]int
+
 // a named map type (which may carry its own key-order morphism) next to a plain map
 type TwoMaps struct {
 	Canon StrMap
@@ -443,6 +446,13 @@ func buildAtlases() {
 	structs := []interface{}{Inner{}, WithPtr{}, Emb{}, Rec{}, Tagged{}, OmitAll{}, Nums{}, HasShape{}, HasNoAtlas{}, MapKeyed{}, TwoMaps{}, TwoTr{}, Wide{}, Circle{}, Square{}}
 	mk := func(id int, sort atlas.KeySortMode, mode atlas.KeySortMode, tags bool, extra ...*atlas.AtlasEntry) {
 		var es []*atlas.AtlasEntry
+		{
+			kb := atlas.BuildEntry(KeyedMap{})
+			if tags {
+				kb = kb.UseTag(31)
+			}
+			extra = append(append([]*atlas.AtlasEntry{}, extra...), kb.MapMorphism().SetKeySortMode(sort).Complete())
+		}
 		tag := 100
 		for _, s := range structs {
 			b := atlas.BuildEntry(s)
@@ -588,7 +598,7 @@ func rootTypes() []reflect.Type {
 		float32(0), float64(0), []byte{}, MyInt(0), MyI8(0), MyI16(0), MyU16(0), MyU32(0), MyStr(""), MyBool(false), MyF32(0), MyBytes{},
 		Arr4{}, Arr0{}, [3]byte{}, []MyByte{}, [2]MyByte{},
 		Inner{}, WithPtr{}, Emb{}, EmbPtr{}, Rec{}, Tagged{}, OmitAll{}, Nums{}, KeyStruct{}, TrNum(0), TrBytes{}, TrComp{}, HasShape{},
-		NoAtlas{}, HasNoAtlas{}, MapKeyed{}, MapInt{}, StrMap{}, Circle{}, Square{}, TwoMaps{}, TrSq{}, []TrSq{}, map[string]TrSq{}, TrMap{}, []TrMap{}, map[string]TrMap{}, [2]TrMap{}, TrOpt{}, []TrOpt{}, TwoTr{}, Wide{}, TrW{}, TrN{}, []TrW{}, []TrN{}, Digest{}, []Digest{}, map[string]Digest{}, map[string]NoAtlas{}, map[string][]NoAtlas{}, []map[string]int{}, (*int64)(nil), []int64{}, [2][]byte{}, [1]*[4]byte{}, [2]interface{}{}, [2]map[string]int{}, [2][]int{},
+		NoAtlas{}, HasNoAtlas{}, MapKeyed{}, MapInt{}, StrMap{}, Circle{}, Square{}, TwoMaps{}, TrSq{}, []TrSq{}, map[string]TrSq{}, TrMap{}, []TrMap{}, map[string]TrMap{}, [2]TrMap{}, TrOpt{}, []TrOpt{}, TwoTr{}, Wide{}, TrW{}, TrN{}, []TrW{}, []TrN{}, Digest{}, []Digest{}, map[string]Digest{}, KeyedMap{}, []KeyedMap{}, map[string]NoAtlas{}, map[string][]NoAtlas{}, []map[string]int{}, (*int64)(nil), []int64{}, [2][]byte{}, [1]*[4]byte{}, [2]interface{}{}, [2]map[string]int{}, [2][]int{},
 		[]int{}, []string{}, [2]string{}, [0]int{}, [][]int{}, []*int{}, []interface{}{}, map[string]int{}, map[string]interface{}{},
 		map[string][]byte{}, map[string]map[string]string{}, map[KeyStruct]string{}, map[TrNum]int{}, map[int]int{}, map[MyStr]int{},
 		(*int)(nil), (**string)(nil), (*[]int)(nil), (*Inner)(nil), (***Inner)(nil), (*interface{})(nil), []*Inner{}, map[string]*Rec{},
